@@ -20,7 +20,7 @@ import itertools
 import json
 import os
 
-from lib import common, pipeline
+from lib import clicontract, common, pipeline
 from lib.checks import c10
 from lib.common import ToolError
 
@@ -161,6 +161,22 @@ def run(ctx):
                 ctx.fail("layout-oracle:lex-verdict", {"src": src, "model_err": model_err, "stages": ob["stages"]})
         if kind != "valid":
             distinct.add(common.digest(src))
+    # ---------------------------------------------------------------- the command line (spec/Cli.tla): exit status and output of
+    # --parse / --check / --emit-rust on a seeded sample of every input kind must be the ones the contract derives from the
+    # library's verdicts (0 / 1 only, a diagnostic on failure, a result on success)
+    by_kind = {}
+    for kind, src, _ in inputs:
+        by_kind.setdefault(kind, []).append(src)
+    per = 3 if ctx.quick else 30
+    cli_sample = []
+    for kind in sorted(by_kind):
+        for j, src in enumerate(rnd.sample(by_kind[kind], min(per, len(by_kind[kind])))):
+            if "\x00" not in src:
+                cli_sample.append((f"{kind}:{j}", src))
+    with ctx.timed("cli"):
+        cstats = clicontract.run_sessions(ctx, cli_sample, "c11")
+    ctx.stats["cli"] = cstats
+    n += cstats.get("invocations", 0)
     ctx.sample({"mutant_kinds": kinds})
     ctx.sample({"example_input": inputs[len(lrows) + 5][1][:300]})
     common.write_evidence(ctx, "exploration", {
